@@ -107,7 +107,7 @@ func decodeEvents(s string) string {
 }
 
 func C12(c *core.Ctx) {
-	c.Rule = "edit scenarios (strategy upsert/insert/update, replace and delete; generated schema and trees; entry point root / container / list entry so that the edit root has 0–3 ancestors) on recording reference stores for source and target; each scenario runs once fault-free to learn its K node callbacks, then K more times with callback k = 1…K failing (exhaustive per scenario); trace (Begin/End/other with the failing one marked) and result are compared with the Lean bracket model, and errors.As must find the injected error. non-trivial = faulted run whose failing callback is not the first; distinct by (scenario, k)"
+	c.Rule = "edit scenarios (strategy upsert/insert/update through the From and the Into entry points, replace and delete; generated schema and trees; entry point root / container / list entry so that the edit root has 0–3 ancestors) on recording reference stores for source and target; each scenario runs once fault-free to learn its K node callbacks, then K more times with callback k = 1…K failing (exhaustive per scenario); trace (Begin/End/other with the failing one marked) and result are compared with the Lean bracket model, and errors.As must find the injected error. non-trivial = faulted run whose failing callback is not the first; distinct by (scenario, k)"
 	c.Assumptions = append(c.Assumptions,
 		"the scenario tree is parsed from the fault-free trace of the real code: consecutive Begin events form one bubbling group",
 		"Choose callbacks do not occur in these scenarios (no choices in the generated schemas); the documented swallowing of target Choose errors is outside this check")
@@ -154,7 +154,19 @@ func C12(c *core.Ctx) {
 		locs := []editLoc{{"", dc.kids, tgt0, "root", 0}}
 		findLocs(dc.kids, tgt0, "", 0, &locs)
 		loc := core.Pick(r, locs)
-		op := core.Pick(r, []string{"upsert", "upsert", "insert", "update", "delete", "replace"})
+		op := core.Pick(r, []string{"upsert", "upsert", "insert", "update", "delete", "replace", "upsert-into", "insert-into", "update-into"})
+		if strings.HasSuffix(op, "-into") && r.Chance(60) {
+			// the Into entry points from a list entry: the one place where the source selection has a list above it
+			var entries []editLoc
+			for _, l := range locs {
+				if l.kind == "entry" {
+					entries = append(entries, l)
+				}
+			}
+			if len(entries) > 0 {
+				loc = core.Pick(r, entries)
+			}
+		}
 		src0 := gen.GenBody(r, loc.kids, 30+r.Intn(50), o)
 		if withChoice {
 			loc = locs[0]
@@ -217,6 +229,32 @@ func C12(c *core.Ctx) {
 					}
 					return child.ReplaceFrom(refstore.NewBody(rec, loc.kids, gen.Clone(doc), "src:"))
 				}
+				if strings.HasSuffix(op, "-into") {
+					// the Into entry points: the source selection drives, the target is a bare node at the same place.
+					// The source browser holds the target's tree with the source data put in at the entry point
+					srcFull := gen.Clone(tgt0)
+					lb := locateBody(dc.kids, srcFull, loc)
+					if lb == nil {
+						return fmt.Errorf("entry point not in the source tree")
+					}
+					copy(lb, gen.Clone(src0))
+					saved := *rec
+					rec.FailAt = 0
+					sb := node.NewBrowser(dc.m, refstore.NewBody(rec, dc.kids, srcFull, "src:"))
+					ssel, err := sb.Root().Find(loc.path)
+					*rec = saved
+					if err != nil || ssel == nil {
+						return fmt.Errorf("source entry point: %v", err)
+					}
+					switch op {
+					case "upsert-into":
+						return ssel.UpsertInto(sel.Node)
+					case "insert-into":
+						return ssel.InsertInto(sel.Node)
+					default:
+						return ssel.UpdateInto(sel.Node)
+					}
+				}
 				return applyEdit(sel, op, refstore.NewBody(rec, loc.kids, gen.Clone(src0), "src:"))
 			})
 			return rec, opErr
@@ -236,6 +274,17 @@ func C12(c *core.Ctx) {
 		if K == 0 {
 			continue
 		}
+		// "and to no other node": the source of an edit is only read
+		onSource := func(rec *refstore.Recorder, when string) {
+			for _, e := range rec.Events {
+				if (e.Op == "begin" || e.Op == "end") && strings.HasPrefix(e.Node, "src:") {
+					c.Violation(core.Replay{Kind: "property-failure", Class: "begin-end-on-source-" + op, Summary: fmt.Sprintf("%s at %q (%s): the source node %s, which is only read, was told %s of an edit", op, loc.path, when, e.Node, e.Op),
+						Input: map[string]interface{}{"yang": dc.yang, "op": op, "entry": loc.path, "trace": decodeEvents(c12events(rec))}})
+					return
+				}
+			}
+		}
+		onSource(free, "fault-free")
 		// replace = delete + insert: two API-internal edits, each with its own brackets → parse as a sequence
 		var scns []*c12scn
 		pos := 0
@@ -267,6 +316,7 @@ func C12(c *core.Ctx) {
 		for k := 1; k <= K; k++ {
 			rec, err := runOnce(k)
 			c.Evaluations++
+			onSource(rec, fmt.Sprintf("callback %d failing", k))
 			if k > 1 {
 				c.Distinct(fmt.Sprint(si, k))
 			}
